@@ -25,8 +25,9 @@ BOUNDS = {
              'duplicates occur), through domain split, recipient split and '
              'both in either order (4 recipients: domain split then recipient '
              'split); chain cells: every chain of <=2 policies '
-             'out of 9 (recipient split, domain split, forward with 4 rule '
-             'sets, Date, Message-Id, Received, pass-through test policy) '
+             'out of 11 (recipient split, domain split, forward with 4 rule '
+             'sets, Date, Message-Id, Received, pass-through test policy, two '
+             'generator-style test policies) '
              'over 5 recipient lists from a menu, Date/Message-Id present or '
              'absent, header-less message',
     'thorough': 'symbolic recipients of 4 characters; chains of 3 policies',
@@ -57,7 +58,7 @@ RULES = [
     [(r'^postmaster$', '', 0)],
 ]
 POLICIES = ['rsplit', 'dsplit', 'fwd0', 'fwd1', 'fwd2', 'fwd3', 'date', 'msgid',
-            'received', 'passthru']
+            'received', 'passthru', 'genpass', 'gennone']
 
 
 def cells(tier):
@@ -111,6 +112,20 @@ def make_policy(name):
         return AddMessageIdHeader('mx.test')
     if name == 'received':
         return AddReceivedHeader()
+
+    if name == 'genpass':
+        # "return or generate an iterable" (QueuePolicy.apply docstring)
+        class GenPass(QueuePolicy):
+            def apply(self, envelope):
+                yield envelope
+        return GenPass()
+    if name == 'gennone':
+        class GenNone(QueuePolicy):
+            def apply(self, envelope):
+                envelope.headers['X-Seen'] = 'yes'
+                return
+                yield
+        return GenNone()
 
     class PassThru(QueuePolicy):
         def apply(self, envelope):
